@@ -37,11 +37,15 @@ class _limit:
 
     def __enter__(self):
         self.old = signal.signal(signal.SIGALRM, _alarm)
-        signal.setitimer(signal.ITIMER_REAL, self.seconds)
+        self.t0 = time.time()
+        # nests: an outer limit is suspended and resumed with what is left of it
+        self.outer = signal.setitimer(signal.ITIMER_REAL, self.seconds)[0]
 
     def __exit__(self, *a):
         signal.setitimer(signal.ITIMER_REAL, 0)
         signal.signal(signal.SIGALRM, self.old)
+        if self.outer:
+            signal.setitimer(signal.ITIMER_REAL, max(0.05, self.outer - (time.time() - self.t0)))
         return False
 
 
@@ -136,7 +140,15 @@ def _run(mod, prop_id, tier, seed, replay, work, t0):
         data = json.load(open(replay))
         payloads = [uncanon(data['case'])] if 'case' in data else []
     else:
-        payloads = list(mod.generate(rng, tier))
+        # some generators run the implementation themselves (e.g. to record the draws of the real RNG):
+        # a hanging implementation must not hang the check
+        try:
+            with _limit(getattr(mod, 'GENERATE_TIMEOUT', 600 if tier == 'quick' else 3600)):
+                payloads = list(mod.generate(rng, tier))
+        except CaseTimeout:
+            payloads = []
+            broken.append('case generation (which runs the implementation) did not finish within its time limit: '
+                          'the implementation does not return on some generated input')
     t_impl = time.time()
     results = []
     timeouts = 0
